@@ -192,6 +192,7 @@ INVOKED = []        # [sensor id, time of the invocation, timestep]
 INVOKED_TS = []
 STS = [1, 3, 2, 1, 2, 3, 1]
 SLOW = [False]
+KEEP = []           # every process object seen during a case (so that no id() is reused within the case)
 BATCHES = []        # per batch: [global time, ids of the registered processes after it]
 
 
@@ -205,14 +206,18 @@ def instrument():
     orig = (Engine._send_updates, Engine.run_steps, Engine._process_state, Engine.apply_update,
             Store.build_topology_views)
     depth = [0]
+    in_send = [0]
 
     def send_updates(self, *args, **kwargs):
         TRACE.append(['SU'])
+        in_send[0] += 1
         try:
             return orig[0](self, *args, **kwargs)
         finally:
+            in_send[0] -= 1
             TRACE.append(['SU_END'])
-            BATCHES.append([self.global_time, {id(p) for p in self.process_paths.values()}])
+            KEEP.extend(self.process_paths.values())
+            BATCHES.append([self.global_time, {id(p): '/'.join(map(str, path)) for path, p in self.process_paths.items()}])
             # after the step phase every kit step's output is what it computes from the CURRENT values of its
             # compartment (it ran once, saw the committed state and the updates of the steps before it)
             K = struct.kit()
@@ -255,6 +260,10 @@ def instrument():
             if isinstance(x, kit_steps) and calls.count(cid) != want:
                 PHASES.append('step %s ran %d time(s) in a phase at whose start it %s' % (
                     '/'.join(path), calls.count(cid), 'existed' if want else 'did not exist there'))
+        if not in_send[0]:
+            # the step phase of Engine.__init__ / a direct call: processes created by it exist from this time on
+            KEEP.extend(self.process_paths.values())
+            BATCHES.append([self.global_time, {id(p): '/'.join(map(str, path)) for path, p in self.process_paths.items()}])
         return r
 
     def process_state(self, *args, **kwargs):
@@ -351,6 +360,18 @@ def corpus():
     ]
 
 
+def corpus_intervals():
+    """a slow sensor (timestep 3) deleted in mid-interval and generated again under the same key before the old
+    interval would have ended"""
+    base = {'kind': 'live', 'director': 'process', 'refresh': [], 'extra': 6, 'slow': True, 'entry': 'parts', 'more': {}}
+    return [
+        dict(base, hist=[['A', [['generate', 'c01', 1, {'s': {'n': 5}}]]], ['A', [['generate', 'c02', 1, {'s': {'n': 5}}]]],
+                         ['A', [['delete', 'c02']]], ['A', [['generate', 'c02', 1, {'s': {'n': 6}}]]]]),
+        dict(base, hist=[['B', [['generate', 'c01', 3, {}]]], ['B', [['generate', 'c02', 3, {}]]], ['B', [['delete', 'c02']]],
+                         ['B', [['generate', 'c03', 0, {}], ['generate', 'c02', 3, {}]]]]),
+    ]
+
+
 def run_impl(c):
     from vivarium.core.engine import Engine
     K = kit()
@@ -390,6 +411,7 @@ def run_impl(c):
         del INVOKED[:]
         del INVOKED_TS[:]
         del BATCHES[:]
+        del KEEP[:]
         SLOW[0] = bool(c.get('slow'))
         del struct.CALLS[:]
         with contextlib.redirect_stdout(io.StringIO()), instrument():
@@ -407,7 +429,7 @@ def run_impl(c):
             # change the structure around them
             eng.run_for(nticks)
             out['tally'] = [eng.state.get_path(('tally', 'count')).value,
-                            [list(x) for x in INVOKED], [[t, sorted(l)] for t, l in BATCHES]]
+                            [list(x) for x in INVOKED], [[t, sorted(l.items())] for t, l in BATCHES]]
             eng.end()
     except Exception as e:
         out['status'] = 'raised:%s:%s%s' % (type(e).__name__, '[still pending] ' if 'still pending' in str(e) else '',
@@ -461,14 +483,48 @@ def oracle_rels(c, ob, rng):
     return []
 
 
-def oracle_inflight(c, ob, rng):
-    """C01: the update of an invocation is applied exactly once when it falls due if its process is still live
-    then, and never if the process has been deleted before (updates in flight of deleted processes are dropped)"""
+def oracle_intervals(c, ob, rng):
+    """C02: a process that enters the simulation at time T is first invoked at T, and every further invocation starts
+    where the previous interval ended (the timestep it is handed is the length of the interval it accounts for)"""
     if 'tally' not in ob:
         return []
     got, invoked, batches = ob['tally']
+    created = {}
+    for t, ids in batches:
+        for sid, _ in ids:
+            created.setdefault(sid, t)
+    last = {}
+    for sid, t, ts in invoked:
+        if sid not in last:
+            born = created.get(sid)
+            if born is not None and abs(t - born) > 1e-9:
+                return [('a process created at time %s is first invoked at time %s (timestep %s)' % (born, t, ts),
+                         'first-interval-start')]
+        else:
+            t0, ts0 = last[sid]
+            if abs(t0 + ts0 - t) > 1e-9:
+                return [('a process invoked at %s for %s is next invoked at %s' % (t0, ts0, t), 'interval-gap')]
+        last[sid] = (t, ts)
+    return []
+
+
+def oracle_inflight(c, ob, rng, report_moved=True):
+    """C01: the update of an invocation is applied exactly once when it falls due if its process is still live
+    then, and never if the process has been deleted before (updates in flight of deleted processes are dropped).
+    An update in flight while its compartment is MOVED is dropped by the engine although the process lives on
+    (K10): counted separately and reported under its own signature (not at all with report_moved=False, for the
+    property that is only about batches)"""
+    if 'tally' not in ob:
+        return []
+    got, invoked, batches = ob['tally']
+    batches = [[t, dict((i, p) for i, p in l)] for t, l in batches]
     times = [t for t, _ in batches]
-    sure = maybe = 0
+    moved_at = {}                           # sid -> times of the batches that changed its path
+    for k in range(1, len(batches)):
+        for sid, path in batches[k][1].items():
+            if sid in batches[k - 1][1] and batches[k - 1][1][sid] != path:
+                moved_at.setdefault(sid, []).append(batches[k][0])
+    sure = dropped = 0
     for sid, t, ts in invoked:
         due = t + ts
         ks = [k for k, bt in enumerate(times) if abs(bt - due) < 1e-9]
@@ -476,14 +532,19 @@ def oracle_inflight(c, ob, rng):
             continue                        # still in flight at the end of the run
         k = ks[0]
         before = k == 0 or sid in batches[k - 1][1]
-        after = sid in batches[k][1]
         if before:
             # registered when the update fell due: it is applied, even if another update of the same batch deletes
             # the process (all updates of a batch were computed from the same committed state)
-            sure += 1
-    if not (sure <= got <= sure + maybe):
+            if any(t + 1e-9 < m < due - 1e-9 for m in moved_at.get(sid, [])):
+                dropped += 1                # moved while in flight
+            else:
+                sure += 1
+    if got == sure and dropped and report_moved:
+        return [('%d update(s) in flight when their compartment was moved were never applied (counter %d, %d fell due '
+                 'while their process was live)' % (dropped, got, sure + dropped), 'move-in-flight')]
+    if not (sure <= got <= sure + dropped):
         return [('the counter outside the compartments holds %d; %d sensor updates fell due while their process was '
-                 'live (+%d whose process was deleted in the same batch)' % (got, sure, maybe), 'inflight-update')]
+                 'live (+%d in flight when their compartment was moved)' % (got, sure, dropped), 'inflight-update')]
     return []
 
 
